@@ -657,6 +657,54 @@ def gen_specs(quick, seed):
                            "kinds": {s: kind_of(rk, j) for j, s in enumerate(rs)}}
 
 
+# ---------------------------------------------------------------------------
+# part "cat_all": per-category settings given through the 'all' pseudo-scheme (admin__all__<option>), with and without
+# a category option of the scheme's own next to them, with and without a category deprecation list
+# ---------------------------------------------------------------------------
+CAT_ALL_LISTS = (("sha256_crypt",), ("pbkdf2_sha256", "md5_crypt"), ("md5_crypt", "sha256_crypt"), ("bsdi_crypt", "pbkdf2_sha256"),
+                 ("des_crypt", "pbkdf2_sha256", "phpass"))
+
+
+def cat_all_cfgs():
+    out = []
+    for L in CAT_ALL_LISTS:
+        rs = [s for s in L if s in SCALE]
+        s0 = rs[0]
+        sc = SCALE[s0]
+        globs = {"none": {}, "window": {f"{s0}__min_rounds": sc["a"], f"{s0}__max_rounds": sc["b"], f"{s0}__default_rounds": sc["r"]},
+                 "all_vary": {"all__vary_rounds": 0.1, f"{s0}__default_rounds": sc["r"]}}
+        alls = {"min": {"admin__all__min_rounds": sc["m"]}, "max": {"admin__all__max_rounds": sc["m"]},
+                "default": {"admin__all__default_rounds": sc["m"]}, "rounds": {"admin__all__rounds": sc["m"]},
+                "vary_float": {"admin__all__vary_rounds": 0.25}, "vary_pct": {"admin__all__vary_rounds": "10%"},
+                "vary_int": {"admin__all__vary_rounds": sc["vint"]}, "truncate_error": {"admin__all__truncate_error": True},
+                "window": {"admin__all__min_rounds": sc["a"] + 1, "admin__all__max_rounds": sc["b"] - 1}}
+        owns = {"none": {}, "own_max": {f"admin__{s0}__max_rounds": sc["b"]}, "own_default": {f"admin__{s0}__default_rounds": sc["r"]}}
+        deps = {"none": {}, "cat_dep": {"admin__context__deprecated": [L[-1]]} if len(L) > 1 else None,
+                "same_dep": {"deprecated": [L[-1]], "admin__context__deprecated": [L[-1]]} if len(L) > 1 else None}
+        for gk, g in globs.items():
+            for ak, a in alls.items():
+                for ok, o in owns.items():
+                    for dk, d in deps.items():
+                        if d is None:
+                            continue
+                        cfg = {"schemes": list(L)}
+                        for part in (g, a, o, d):
+                            cfg.update(part)
+                        out.append((f"{len(L)}:{s0}:{gk}:{ak}:{ok}:{dk}", cfg))
+    return out
+
+
+def work_cat_all(task):
+    acc = Acc()
+    for label, cfg in task["cases"]:
+        case = {"part": "cat_all", "cfg": cfg, "seed": task["seed"], "heavy_ok": False, "label": label}
+        acc.cls("cat_all", label)
+        acc.axis("cat_all_option", label.split(":")[3])
+        for key, desc in eval_ctx(case, acc):
+            acc.violation(key, desc, case)
+    return acc
+
+
 def full_product_size(maxn):
     total = 0
     for n in range(1, maxn + 1):
@@ -757,6 +805,11 @@ def run(ctx):
     ctx.merge(core.pmap(c04_zero.work_aliases, c04_zero.tasks_aliases()), part="aliases")
     # part "derived": the policy after copy / update / using / export+import / load(other context), incl. empty per-category lists
     ctx.merge(core.pmap(c04_zero.work_derived, c04_zero.tasks_derived()), part="derived")
+    # part "cat_all": per-category settings through the 'all' pseudo-scheme
+    ca = cat_all_cfgs()
+    acc_ca = core.pmap(work_cat_all, [{"cases": ca[i::32], "seed": seed} for i in range(32)])
+    acc_ca.violations = finalize_keys(acc_ca.violations)
+    ctx.merge(acc_ca, part="cat_all")
     ctx.cov["states"] = acc.counters["states"]
     ctx.cov["transitions"] = acc.counters["transitions"]
     ctx.cov["traces_validated_against_impl"] = acc.counters["histories"]
